@@ -107,12 +107,20 @@ OpName(e) == IF e.op = "scale_l" THEN "scale" ELSE IF e.op = "cost" THEN (IF e.k
 
 CustomOps == {"cadd", "cmul", "csq", "cfma"}
 DiffOps == {"add", "sub", "mul", "div", "axpy", "neg", "scale", "scale_l", "powf", "recip", "ln", "exp",
-            "sum", "reshape", "matmul", "conv", "relu", "sigmoid", "softmax", "cost"} \cup CustomOps
+            "sum", "reshape", "matmul", "conv", "relu", "sigmoid", "softmax", "cost", "clib"} \cup CustomOps
 
 \* store the canonical tensor of the newest node (symbolic domain: symbols)
 CanonLast(S2) == LET n == Len(S2.nodes) IN [S2 EXCEPT !.nodes[n].t = Canon(n, S2.nodes[n].t)]
 
 JudgeApply(e) ==
+  \* Array::op WITHOUT a derivative, forward closure x0 * x0 + x1 written with library operations: the result is
+  \* whatever those operations record - two ordinary nodes, the intermediate one without a handle
+  IF e.op = "clib" THEN
+     (IF HandleT(S, e.args[1]).d # HandleT(S, e.args[2]).d THEN Unspec
+      ELSE LET S1 == Apply(S, "mul", <<>>, <<e.args[1], e.args[1]>>, TmpA, e.i)
+               S2 == Drop(Apply(S1, "add", <<>>, <<TmpA, e.args[2]>>, e.res, e.i), TmpA)
+           IN NewValue(e, CanonLast(S2), S2.nodes[Len(S2.nodes)].t, <<"judged">>))
+  ELSE
   LET op == OpName(e)  par == ParOf(e)
       st == ApplyStatus(S, op, par, e.args)
   IN IF st = "unspec" THEN Unspec
